@@ -72,7 +72,7 @@ PROPS = {
     },
     "C08": {
         "bundles": ["gatewalk"],
-        "fns": {"gatewalk": ["MessageExitingConnection::handle_with_sink"]},
+        "fns": {"gatewalk": ["MessageExitingConnection::handle_with_sink", "HandleMessageEvent::handle"]},
         "assumptions": ["the gate graph (Arc<Gate> + Mutex<Connections>) enters through ONE assumed contract: Connection::next_hop follows an abstract finite route (the hops that remain after a connection); that connect / next_hop really build and follow such routes - symmetric, at most two peers, mirror image from the other end - is only covered by the bounded replay driver",
                         "shims: opaque GateRef / ModuleRef / ChannelRef / Connection with accessor contracts (rule R19 turns the field access `.endpoint` into the accessor), Message reduced to header.last_gate + content, EventSink as a trait whose add appends to an abstract event list, ChannelRef::send_message recorded as 'took the message' (what the channel then does is C07), tracing statements dropped (R18)",
                         "SimTime::now() is an uninterpreted value (the delivery is scheduled for 'now')"],
